@@ -59,7 +59,7 @@ static void body(mvprog::PT& p) {
         // waits
         uint64_t t0 = mv_now();
         uint64_t sw0 = *(uint64_t*)&photon::get_vcpu()->switch_count;     // (cast: plain read, not a scheduling point)
-        G->blocked_demand[p.idx] = n;
+        G->blocked_demand[p.idx] = n; int intr0 = G->interrupts[p.idx];
         pmc_log("  [+%llu] T%d %c%d begins, count=%llu", (unsigned long long)(mv_now() - MV_T0), p.idx, op, n, (unsigned long long)G->sem->count());
         errno = 0; int r;
         uint64_t forever = FOREVER + 10000ull * (G->nwaits++ % 50);      // distinct stand-in deadlines: two "forever" waits never expire together
@@ -85,6 +85,9 @@ static void body(mvprog::PT& p) {
         else {
             bool to = (e == ETIMEDOUT && op == 't' && mv_now() >= t0 + TMO);
             bool intr = (e == EINTR && G->interrupts[p.idx] && op != 'w');
+            // an interrupt that was sent before this wait began belongs to an earlier sleep (or to none): it must not end this one (C04)
+            if (intr && G->interrupts[p.idx] == intr0 && G->prog.nos == 1)
+                pmc_violation("stale-interrupt-delivered", "op %c%d by thread %d returned -1/EINTR at +%llu us although no interrupt was sent to it during this wait", op, n, p.idx, (unsigned long long)(mv_now() - t0));
             if (!to && !intr) pmc_violation("wait-failed-without-reason", "op %c%d by thread %d returned -1 errno=%d at +%llu", op, n, p.idx, e, (unsigned long long)(mv_now() - t0));
             p.result += to ? "t" : "e";
         }
